@@ -196,34 +196,33 @@ int64_t cmb_resource_acquire(struct cmb_resource *rp)
     cmb_logger_info(stdout, "Acquiring resource %s", rbp->name);
 
     struct cmb_process *pp = cmb_process_current();
-    if (rp->holder == NULL) {
-        /* Easy, grab it */
-        resource_grab(rp, pp);
-        record_sample(rp);
-        cmb_logger_info(stdout, "Acquired %s", rbp->name);
-        return CMB_PROCESS_SUCCESS;
-    }
+    while (true) {
+        if (rp->holder == NULL) {
+            /* Easy, grab it */
+            resource_grab(rp, pp);
+            record_sample(rp);
+            cmb_logger_info(stdout, "Acquired %s", rbp->name);
+            return CMB_PROCESS_SUCCESS;
+        }
 
-    /* Wait at the front door until resource becomes available */
-     const int64_t ret = cmb_resourceguard_wait(&(rp->guard),
-                                                is_available,
-                                                NULL);
+        /* Wait at the front door until resource becomes available */
+        const int64_t ret = cmb_resourceguard_wait(&(rp->guard),
+                                                   is_available,
+                                                   NULL);
 
-    /* Now we got past the front door, or perhaps thrown out by the guard */
-    if (ret == CMB_PROCESS_SUCCESS) {
-        /* All good, grab the resource */
-        resource_grab(rp, pp);
-        record_sample(rp);
-        cmb_logger_info(stdout, "Acquired %s", rbp->name);
+        /*
+         * Now we got past the front door, or perhaps thrown out by the guard.
+         * If all good, go back and grab the resource, unless someone else took
+         * it between the wakeup call and now, in which case we wait again.
+         */
+        if (ret != CMB_PROCESS_SUCCESS) {
+            cmb_logger_info(stdout,
+                            "Did not acquire %s, code %" PRId64,
+                            rbp->name,
+                            ret);
+            return ret;
+        }
     }
-    else {
-        cmb_logger_info(stdout,
-                        "Did not acquire %s, code %" PRId64,
-                        rbp->name,
-                        ret);
-    }
-
-    return ret;
 }
 
 /*
